@@ -195,6 +195,7 @@ func C14() int {
 		})
 	}
 	c14CrossCheck(s, c, jobs[0].items, jobs[0].f)
+	reportBatchAnomalies(c)
 	c.Set("cells_wrapper_class_verdict", cells)
 	thin := 0
 	for _, b := range gen.SelBuilderNames() {
